@@ -482,7 +482,7 @@ static int trx_ctrl_read_cb(struct osmo_fd *ofd, unsigned int what)
 {
 	struct trx_instance *trx = ofd->data;
 	struct trx_ctrl_msg *tcm;
-	int resp, rsp_len;
+	int resp = -EINVAL, rsp_len;
 	char buf[TRXC_BUF_SIZE], *p;
 	ssize_t read_len;
 
@@ -524,8 +524,9 @@ static int trx_ctrl_read_cb(struct osmo_fd *ofd, unsigned int what)
 		goto rsp_error;
 	}
 
-	/* Check for response code */
-	sscanf(p + 1, "%d", &resp);
+	/* Check for response code (if any) */
+	if (p != NULL)
+		sscanf(p + 1, "%d", &resp);
 	if (resp) {
 		LOGPFSML(trx->fi, (tcm->critical) ? LOGL_FATAL : LOGL_ERROR,
 			"Transceiver rejected TRX command with "
